@@ -345,6 +345,7 @@ func (w *World) rulesParsePkg(p *Pkg, out *[]Obligation) {
 	if sm := p.SetModel(); sm.ValidateFn != nil {
 		ok, why := p.checkValidate(p.FuncObj[sm.ValidateFn])
 		add(ok, "R01.case", "validate", p.FuncObj[sm.ValidateFn], why)
+		add(ok, "R09.case", "validate", p.FuncObj[sm.ValidateFn], why)
 	}
 	// ---- deny-list
 	w.rulesDenyList(p, add)
@@ -580,8 +581,12 @@ var denyFuncs = map[string][]string{
 }
 
 func (w *World) rulesDenyList(p *Pkg, add func(ok bool, rule, inst string, n ast.Node, detail string)) {
+	w.denyList(p, "R01.case", []*ast.FuncDecl{p.Funcs["ParseVector"], p.method("Get"), p.method("Set")}, add)
+	w.denyList(p, "R09.case", []*ast.FuncDecl{p.method("Get"), p.method("Set")}, add)
+}
+
+func (w *World) denyList(p *Pkg, rule string, roots []*ast.FuncDecl, add func(ok bool, rule, inst string, n ast.Node, detail string)) {
 	info := p.Info
-	roots := []*ast.FuncDecl{p.Funcs["ParseVector"], p.method("Get"), p.method("Set")}
 	seen := map[*ast.FuncDecl]bool{}
 	var work []*ast.FuncDecl
 	for _, r := range roots {
@@ -623,13 +628,13 @@ func (w *World) rulesDenyList(p *Pkg, add func(ok bool, rule, inst string, n ast
 			}
 			if deny {
 				bad++
-				add(false, "R01.case", fd.Name.Name+".call["+fn.FullName()+"]", call, "the parsing/lookup path calls "+fn.FullName()+": input is normalised before comparison, so strings outside the grammar (other case, padding) are accepted")
+				add(false, rule, fd.Name.Name+".call["+fn.FullName()+"]", call, "the parsing/lookup path calls "+fn.FullName()+": input is normalised before comparison, so strings outside the grammar (other case, padding) are accepted")
 			}
 			return true
 		})
 	}
 	if bad == 0 {
-		add(true, "R01.case", "denylist", roots[0], fmt.Sprintf("%d functions reachable from ParseVector/Get/Set, %d resolved calls, none normalises its input (no case folding, trimming, replacing)", len(seen), calls))
+		add(true, rule, "denylist", roots[0], fmt.Sprintf("%d functions reachable from the roots of this rule (ParseVector/Get/Set or Get/Set), %d resolved calls, none normalises its input (no case folding, trimming, replacing)", len(seen), calls))
 	}
 }
 
